@@ -91,8 +91,13 @@ def validate_traces(ad, episodes, tag, invariants=TRACE_INV, shards=16, template
 
 def model_check(ad, fam_file, res, tag):
     wd, root = tlc.prepare("solo_" + tag, template="Solo", env_module=ad.module)
-    tlc.write_cfg(wd, root, invariants=list(ad.solo_invariants))
+    # safety invariants (print-only) + the liveness property "every behaviour reaches a finished state" under weak fairness
+    tlc.write_cfg(wd, root, spec="FairSpec", invariants=list(ad.solo_invariants), properties=["Termination"])
     r = tlc.run(wd, root, env={"FAMILY_FILE": fam_file}, coverage=True)
+    if "Temporal properties were violated" in r.out:
+        res.drift.append({"kind": "model-liveness", "which": ["Termination"],
+                          "note": "the Solo MODEL has a behaviour that never finishes (see out/tlc/solo_%s/tlc.log)" % tag})
+        r.violated = [v for v in r.violated if v != "Termination"]
     res.stats["model_states"] += r.distinct
     res.stats["model_transitions"] += r.generated
     res.coverage["Solo"] = r.coverage()
